@@ -119,3 +119,41 @@ class EvlNoParams(Evl):
     @property
     def params(self):
         raise AttributeError("params")
+
+
+# ---- components that inherit coba's base classes and do NOT define params at all (several classes per kind:
+#      what coba records for them must come from each object alone, never from another class' or an earlier experiment's)
+def _base_classes():
+    from coba.primitives import Learner, Environment, Evaluator
+    out = {}
+    for letter in "ABC":
+        def read(self):
+            return iter(())
+
+        def __init__(self, tag):
+            self.tag = tag
+        out["env" + letter] = type("BaseEnv" + letter, (Environment,), {"read": read, "__init__": __init__, "__module__": __name__})
+
+        def predict(self, context, actions):
+            return [1] + [0] * (len(actions) - 1)
+
+        def learn(self, *args, **kwargs):
+            pass
+        out["lrn" + letter] = type("BaseLrn" + letter, (Learner,), {"predict": predict, "learn": learn, "__init__": __init__, "__module__": __name__})
+
+        def e_init(self, tag, table, lazy=True):
+            self.tag, self.table, self.lazy, self.skip, self.calls = tag, table, lazy, set(), []
+        out["val" + letter] = type("BaseEvl" + letter, (Evaluator,), {"__init__": e_init, "evaluate": Evl.evaluate, "_rows": Evl._rows, "__module__": __name__})
+    return out
+
+
+_BASE = None
+
+
+def base_class(kind, letter):
+    """BaseEnvA/B/C, BaseLrnA/B/C, BaseEvlA/B/C: subclasses of coba.primitives.Environment/Learner/Evaluator without a params of their own"""
+    global _BASE
+    if _BASE is None:
+        _BASE = _base_classes()
+        globals().update({c.__name__: c for c in _BASE.values()})     # importable by name (deepcopy / pickle)
+    return _BASE[kind + letter]
